@@ -36,6 +36,7 @@ PUBLIC_KEYS_HASH_LENGTH = 32
 PUBKEY_COMPRESSED_LENGTH = 33
 SIGNER_HASH_LENGTH = 32
 SIGNER_ITERATION_LENGTH = 2
+APP_HASH_LENGTH = 32
 
 # Ledger's root authority
 # (according to
@@ -99,6 +100,9 @@ def do_verify_attestation(options):
 
     ui_message = bytes.fromhex(ui_result[1])
     ui_hash = bytes.fromhex(ui_result[2])
+    if len(ui_hash) != APP_HASH_LENGTH:
+        raise AdminError(
+            f"Invalid UI attestation: unexpected UI hash length: {ui_hash.hex()}")
     mh_match = UI_MESSAGE_HEADER_REGEX.match(ui_message)
     if mh_match is None:
         raise AdminError(
@@ -147,6 +151,9 @@ def do_verify_attestation(options):
 
     signer_message = bytes.fromhex(signer_result[1])
     signer_hash = bytes.fromhex(signer_result[2])
+    if len(signer_hash) != APP_HASH_LENGTH:
+        raise AdminError("Invalid Signer attestation: unexpected Signer hash length: "
+                         f"{signer_hash.hex()}")
     lmh_match = SIGNER_LEGACY_MESSAGE_HEADER_REGEX.match(signer_message)
     if lmh_match is None and not PowHsmAttestationMessage.is_header(signer_message):
         raise AdminError(
